@@ -32,3 +32,27 @@ package phantoms
 //@   ensures result1 == nil ==> result0 != nil
 //@   assigns nothing
 //@   trusted
+
+//@ import pb "github.com/refraction-networking/conjure/proto"
+
+// interface contract: the generation's weighted subnet groups (read-only accessor)
+//@ func (sc genericSubnetConfig) GetWeightedSubnets() []*pb.PhantomSubnets
+//@   assigns nothing
+
+// frame of the subnet-group parser (builds fresh objects)
+//@ func parseSubnets(phantomSubnet *pb.PhantomSubnets) ([]*phantomNet, error)
+//@   assigns nothing
+//@   trusted
+
+// C14: "... or selection fails with an error": no input (seed, configuration) makes the subnet choice panic; in
+// particular crypto/rand.Int panics for a non-positive bound, so the total weight must be positive when it is used.
+//@ func getSubnetsHkdf(sc genericSubnetConfig, seed []byte, weighted bool) ([]*phantomNet, error)
+//@   requires sc != nil
+//@   ensures @C14: true
+//@   checks safety
+//@ loop 1:
+//@   invariant totWeight >= 0 && 0 <= iter
+//@ loop 2:
+//@   invariant 0 <= iter
+//@ loop 3:
+//@   invariant 0 <= iter
